@@ -17,16 +17,112 @@ use crate::{ensure, fail, guarded, hash64, panic_key, Ctx, Fail, Probe};
 pub struct Child {
     pub call: u64,
     pub word: u64,
+    /// what the merging population kinds compare by (`word % modulus`, or the call number)
+    pub key: u64,
+}
+
+/// An individual that is equal to every other individual with the same key: a set-like
+/// population merges such children, so a generation step can shrink the population.
+#[derive(Clone, Debug)]
+pub struct Keyed(pub Child);
+impl PartialEq for Keyed {
+    fn eq(&self, o: &Self) -> bool {
+        self.0.key == o.0.key
+    }
+}
+impl Eq for Keyed {}
+impl PartialOrd for Keyed {
+    fn partial_cmp(&self, o: &Self) -> Option<std::cmp::Ordering> {
+        Some(self.cmp(o))
+    }
+}
+impl Ord for Keyed {
+    fn cmp(&self, o: &Self) -> std::cmp::Ordering {
+        self.0.key.cmp(&o.0.key)
+    }
+}
+impl std::hash::Hash for Keyed {
+    fn hash<H: std::hash::Hasher>(&self, h: &mut H) {
+        self.0.key.hash(h);
+    }
+}
+impl From<Child> for Keyed {
+    fn from(c: Child) -> Self {
+        Self(c)
+    }
+}
+pub trait IndLike: From<Child> + Clone + Send + Sync + 'static {
+    fn child(&self) -> &Child;
+}
+impl IndLike for Child {
+    fn child(&self) -> &Child {
+        self
+    }
+}
+impl IndLike for Keyed {
+    fn child(&self) -> &Child {
+        &self.0
+    }
+}
+
+/// The population kinds a `Generation` is exercised with (everything the blanket `Population`
+/// impl admits that rayon can collect into).
+pub trait PopLike: ec_core::population::Population<Individual = Self::Ind> + FromIterator<Self::Ind> + rayon::iter::FromParallelIterator<Self::Ind> + Clone + Send + Sync + 'static {
+    type Ind: IndLike;
+    const NAME: &'static str;
+    /// keeps insertion order and never merges
+    const SEQUENCE: bool;
+    /// members in iteration order
+    fn members(&self) -> Vec<Child>;
+}
+impl PopLike for Vec<Child> {
+    type Ind = Child;
+    const NAME: &'static str = "Vec";
+    const SEQUENCE: bool = true;
+    fn members(&self) -> Vec<Child> {
+        self.clone()
+    }
+}
+impl PopLike for std::collections::VecDeque<Child> {
+    type Ind = Child;
+    const NAME: &'static str = "VecDeque";
+    const SEQUENCE: bool = true;
+    fn members(&self) -> Vec<Child> {
+        self.iter().cloned().collect()
+    }
+}
+impl PopLike for BTreeSet<Keyed> {
+    type Ind = Keyed;
+    const NAME: &'static str = "BTreeSet";
+    const SEQUENCE: bool = false;
+    fn members(&self) -> Vec<Child> {
+        self.iter().map(|k| k.0.clone()).collect()
+    }
+}
+impl PopLike for std::collections::HashSet<Keyed> {
+    type Ind = Keyed;
+    const NAME: &'static str = "HashSet";
+    const SEQUENCE: bool = false;
+    fn members(&self) -> Vec<Child> {
+        let mut v: Vec<Child> = self.iter().map(|k| k.0.clone()).collect();
+        v.sort_by_key(|c| c.key);
+        v
+    }
+}
+
+/// what a child-maker call saw: the keys (sets) or full members (sequences) of the population
+fn fingerprint<P: PopLike>(pop: &P) -> (usize, u64) {
+    let m = pop.members();
+    (m.len(), hash64(&m))
 }
 
 #[derive(Clone, Debug)]
 struct Rec {
     call: u64,
-    pop_addr: usize,
-    data_addr: usize,
     pop_hash: u64,
     pop_len: usize,
     word: u64,
+    key: u64,
     failed: bool,
 }
 
@@ -42,18 +138,21 @@ pub struct Shared {
 
 /// The generation owns its child maker and offers no accessor, so the probe's
 /// bookkeeping lives behind an `Arc` of which the oracle keeps a clone.
-pub struct Maker {
+pub struct Maker<P> {
     shared: std::sync::Arc<Shared>,
     delays: Vec<u8>,
+    /// 0: every child gets a key of its own; m > 0: key = word % m, so set-like populations merge children
+    modulus: u64,
+    _p: std::marker::PhantomData<fn() -> P>,
 }
 
-impl Composable for Maker {}
+impl<P> Composable for Maker<P> {}
 
-impl<'a> Operator<&'a Vec<Child>> for Maker {
-    type Output = Child;
+impl<'a, P: PopLike> Operator<&'a P> for Maker<P> {
+    type Output = P::Ind;
     type Error = ProbeErr;
 
-    fn apply<R: Rng + ?Sized>(&self, pop: &'a Vec<Child>, rng: &mut R) -> Result<Child, ProbeErr> {
+    fn apply<R: Rng + ?Sized>(&self, pop: &'a P, rng: &mut R) -> Result<P::Ind, ProbeErr> {
         let call = self.shared.counter.fetch_add(1, Ordering::SeqCst);
         let word = rng.next_u64();
         let d = self.delays.get(call as usize % self.delays.len().max(1)).copied().unwrap_or(0);
@@ -63,22 +162,16 @@ impl<'a> Operator<&'a Vec<Child>> for Maker {
             _ => std::thread::sleep(std::time::Duration::from_micros(u64::from(d))),
         }
         let failed = self.shared.fail_at.lock().map(|f| f.contains(&call)).unwrap_or(false);
-        let rec = Rec {
-            call,
-            pop_addr: std::ptr::from_ref(pop) as usize,
-            data_addr: pop.as_ptr() as usize,
-            pop_hash: hash64(pop),
-            pop_len: pop.len(),
-            word,
-            failed,
-        };
+        let key = if self.modulus == 0 { call } else { word % self.modulus };
+        let (pop_len, pop_hash) = fingerprint(pop);
+        let rec = Rec { call, pop_hash, pop_len, word, key, failed };
         if let Ok(mut l) = self.shared.log.lock() {
             l.push(rec);
         }
         if failed {
             Err(ProbeErr(call))
         } else {
-            Ok(Child { call, word })
+            Ok(P::Ind::from(Child { call, word, key }))
         }
     }
 }
@@ -97,6 +190,12 @@ pub struct Case {
     pub size: usize,
     pub rounds: Vec<Round>,
     pub delays: Vec<u8>,
+    /// 0 Vec, 1 VecDeque, 2 BTreeSet, 3 HashSet
+    #[serde(default)]
+    pub kind: u8,
+    /// see `Maker::modulus`
+    #[serde(default)]
+    pub modulus: u8,
 }
 
 pub const POOL_SIZES: [usize; 6] = [1, 2, 3, 4, 8, 16];
@@ -113,28 +212,42 @@ fn pool(i: u8) -> &'static rayon::ThreadPool {
 }
 
 pub fn oracle(c: &Case, probe: &mut Probe) -> Result<(), Fail> {
-    let initial: Vec<Child> = (0..c.size as u64).map(|i| Child { call: u64::MAX - i, word: i.wrapping_mul(0x9E37_79B9) }).collect();
+    probe.label(format!("population kind {}", ["Vec", "VecDeque", "BTreeSet", "HashSet"][usize::from(c.kind % 4)]));
+    match c.kind % 4 {
+        0 => oracle_for::<Vec<Child>>(c, probe),
+        1 => oracle_for::<std::collections::VecDeque<Child>>(c, probe),
+        2 => oracle_for::<BTreeSet<Keyed>>(c, probe),
+        _ => oracle_for::<std::collections::HashSet<Keyed>>(c, probe),
+    }
+}
+
+fn oracle_for<P: PopLike>(c: &Case, probe: &mut Probe) -> Result<(), Fail> {
+    let initial: P = (0..c.size as u64).map(|i| P::Ind::from(Child { call: u64::MAX - i, word: i.wrapping_mul(0x9E37_79B9), key: 1_000_000 + i })).collect();
     let shared = std::sync::Arc::new(Shared {
         counter: AtomicU64::new(0),
         log: Mutex::new(vec![]),
         fail_at: Mutex::new(BTreeSet::new()),
     });
-    let maker = Maker {
+    let maker: Maker<P> = Maker {
         shared: shared.clone(),
         delays: c.delays.clone(),
+        modulus: u64::from(c.modulus),
+        _p: std::marker::PhantomData,
     };
+    let kind = P::NAME;
     let mut generation = Generation::new(maker, initial);
     let mut all_words: BTreeSet<u64> = BTreeSet::new();
     let mut had_failure = false;
     let mut max_threads = 1;
+    let mut shrank = false;
     for (ri, round) in c.rounds.iter().enumerate() {
         let name = if round.parallel { "par_next" } else { "serial_next" };
         let threads = if round.parallel { POOL_SIZES[usize::from(round.pool) % POOL_SIZES.len()] } else { 1 };
         max_threads = max_threads.max(threads);
-        let old = generation.population().clone();
+        let old = generation.population().members();
+        let old_size = ec_core::population::Population::size(generation.population());
+        ensure!(old_size == old.len(), "harness/size", "size() {} vs {} members", old_size, old.len());
         let old_hash = hash64(&old);
-        let old_addr = std::ptr::from_ref(generation.population()) as usize;
-        let old_data = generation.population().as_ptr() as usize;
         let start_call = shared.counter.load(Ordering::SeqCst);
         {
             let mut f = shared.fail_at.lock().map_err(|_| Fail::new("harness/lock", "poisoned"))?;
@@ -157,19 +270,18 @@ pub fn oracle(c: &Case, probe: &mut Probe) -> Result<(), Fail> {
         };
         let result = match result {
             Ok(r) => r,
-            Err(p) => fail!(format!("{name}/panic:{}", panic_key(&p)), "round {ri}: {name} on {} individuals ({threads} threads) panicked: {p}", old.len()),
+            Err(p) => fail!(format!("{name}/panic:{}", panic_key(&p)), "round {ri}: {name} on {} individuals ({kind}, {threads} threads) panicked: {p}", old.len()),
         };
         // every call was shown the previous, unmodified population
         for r in &log {
             ensure!(
                 r.pop_len == old.len() && r.pop_hash == old_hash,
                 format!("{name}/child-maker-saw-modified-population"),
-                "round {ri}: call {} was shown a population of {} individuals that differs from the previous population ({} individuals)",
+                "round {ri}: call {} was shown a population of {} individuals that differs from the previous population ({} individuals, {kind})",
                 r.call,
                 r.pop_len,
                 old.len()
             );
-            let _ = (r.pop_addr, r.data_addr, old_addr, old_data); // addresses are recorded but not judged: a faithful copy of the old population would also satisfy the property
             ensure!(
                 all_words.insert(r.word),
                 format!("{name}/children-share-randomness"),
@@ -186,36 +298,58 @@ pub fn oracle(c: &Case, probe: &mut Probe) -> Result<(), Fail> {
                     format!("{name}/failure-swallowed"),
                     "round {ri}: a child maker call failed but {name} returned Ok"
                 );
-                let new = generation.population();
-                ensure!(
-                    new.len() == old.len(),
-                    format!("{name}/population-size-changed"),
-                    "round {ri}: population went from {} to {} individuals",
-                    old.len(),
-                    new.len()
-                );
+                let new = generation.population().members();
                 ensure!(
                     log.len() == old.len(),
                     format!("{name}/wrong-number-of-children-made"),
-                    "round {ri}: the child maker was called {} times for a population of {}",
+                    "round {ri} ({kind}): the child maker was called {} times for a population of {} individuals",
                     log.len(),
                     old.len()
                 );
-                let mut made: Vec<Child> = log.iter().map(|r| Child { call: r.call, word: r.word }).collect();
-                let mut got: Vec<Child> = new.clone();
-                if round.parallel {
-                    made.sort();
-                    got.sort();
+                if P::SEQUENCE {
+                    ensure!(
+                        new.len() == old.len(),
+                        format!("{name}/population-size-changed"),
+                        "round {ri}: population ({kind}) went from {} to {} individuals",
+                        old.len(),
+                        new.len()
+                    );
+                    let mut made: Vec<Child> = log.iter().map(|r| Child { call: r.call, word: r.word, key: r.key }).collect();
+                    let mut got: Vec<Child> = new.clone();
+                    if round.parallel {
+                        made.sort();
+                        got.sort();
+                    } else {
+                        made.sort_by_key(|c| c.call);
+                    }
+                    ensure!(
+                        made == got,
+                        format!("{name}/population-is-not-the-children-made"),
+                        "round {ri}: the new population ({kind}) is not exactly the children produced in this round (old members kept, children lost or duplicated): new {:?} made {:?}",
+                        &got[..got.len().min(6)],
+                        &made[..made.len().min(6)]
+                    );
                 } else {
-                    made.sort_by_key(|c| c.call);
+                    // a merging population keeps one child per key: the keys must be exactly those of the
+                    // children made in this round, and every member must be one of those children
+                    let made_keys: BTreeSet<u64> = log.iter().map(|r| r.key).collect();
+                    let got_keys: BTreeSet<u64> = new.iter().map(|c| c.key).collect();
+                    ensure!(
+                        made_keys == got_keys && new.len() == got_keys.len(),
+                        format!("{name}/population-is-not-the-children-made"),
+                        "round {ri}: the new {kind} population has keys {:?}, the children made in this round have keys {:?}",
+                        got_keys.iter().take(8).collect::<Vec<_>>(),
+                        made_keys.iter().take(8).collect::<Vec<_>>()
+                    );
+                    ensure!(
+                        new.iter().all(|m| log.iter().any(|r| r.call == m.call && r.word == m.word && r.key == m.key)),
+                        format!("{name}/population-is-not-the-children-made"),
+                        "round {ri}: a member of the new {kind} population was not produced in this round"
+                    );
+                    if new.len() < old.len() {
+                        shrank = true;
+                    }
                 }
-                ensure!(
-                    made == got,
-                    format!("{name}/population-is-not-the-children-made"),
-                    "round {ri}: the new population is not exactly the children produced in this round (old members kept, children lost or duplicated): new {:?} made {:?}",
-                    &got[..got.len().min(6)],
-                    &made[..made.len().min(6)]
-                );
             }
             Err(ProbeErr(call)) => {
                 had_failure = true;
@@ -224,20 +358,27 @@ pub fn oracle(c: &Case, probe: &mut Probe) -> Result<(), Fail> {
                     format!("{name}/foreign-error"),
                     "round {ri}: returned the error of call {call}, which did not fail in this round"
                 );
-                let now = generation.population();
+                let now = generation.population().members();
                 ensure!(
-                    *now == old,
+                    now == old,
                     format!("{name}/population-changed-on-error"),
-                    "round {ri}: child creation failed (call {call}) but the population changed: {} -> {} individuals",
+                    "round {ri}: child creation failed (call {call}) but the population ({kind}) changed: {} -> {} individuals",
                     old.len(),
                     now.len()
                 );
             }
         }
     }
-    probe.nontrivial = c.size >= 2 && (had_failure || max_threads >= 2);
+    // into_population hands back exactly what population() showed
+    let last = generation.population().members();
+    let owned = generation.into_population().members();
+    ensure!(last == owned, "into_population/differs", "into_population() returned {} individuals, population() showed {}", owned.len(), last.len());
+    probe.nontrivial = c.size >= 2 && (had_failure || max_threads >= 2 || shrank);
     if had_failure {
         probe.label("round with a failing child");
+    }
+    if shrank {
+        probe.label("a merging population shrank and was stepped again");
     }
     if c.size >= 128 {
         probe.label("population >= 128");
@@ -271,14 +412,16 @@ fn strategy() -> BoxedStrategy<Case> {
         } else {
             prop::collection::vec(prop_oneof![6 => Just(0u8), 1 => 1u8..4], 1..8).boxed()
         };
-        (Just(size), prop::collection::vec(round, 1..5), delays)
+        let kind = prop_oneof![5 => Just(0u8), 1 => Just(1u8), 2 => Just(2u8), 1 => Just(3u8)];
+        let modulus = prop_oneof![2 => Just(0u8), 3 => 1u8..=8, 1 => any::<u8>()];
+        (Just(size), prop::collection::vec(round, 1..5), delays, kind, modulus)
     })
-    .prop_map(|(size, rounds, delays)| Case { size, rounds, delays })
+    .prop_map(|(size, rounds, delays, kind, modulus)| Case { size, rounds, delays, kind, modulus })
     .boxed()
 }
 
 pub fn run(ctx: &mut Ctx) {
-    ctx.rule = "population sizes {0, 1, 2..64, 127..300, 1000}; 1-4 consecutive generation steps per case, each serial or parallel inside a rayon pool of 1/2/3/4/8/16 threads; the child maker is a probe that records the address and a hash of the population it is shown, draws one word from the generator it is handed, yields/sleeps according to a generated delay script and fails at generated call positions. Oracle after Ok: same size, the new population is exactly the children made in this round (sequence for serial, multiset for parallel), every call saw the old population at the old address, all drawn words pairwise distinct within and across rounds; after Err: the error is one the probe raised and the population is unchanged. non-trivial = size >= 2 and (a failing child or >= 2 threads); distinct by JSON encoding".into();
+    ctx.rule = "population sizes {0, 1, 2..64, 127..300, 1000} held in a Vec, VecDeque, BTreeSet or HashSet (the set kinds merge children with equal keys, so a step can shrink the population and the next step must make as many children as the population then has); 1-4 consecutive generation steps per case on one Generation value, each serial or parallel inside a rayon pool of 1/2/3/4/8/16 threads; the child maker is a probe that records the address and a hash of the population it is shown, draws one word from the generator it is handed, yields/sleeps according to a generated delay script and fails at generated call positions. Oracle after Ok: the child maker was called exactly population-size times, the new population is exactly the children made in this round (sequence for serial, multiset for parallel, key set for the merging kinds) and has the same size unless it merges, every call saw the old population, all drawn words pairwise distinct within and across rounds; after Err: the error is one the probe raised and the population is unchanged. non-trivial = size >= 2 and (a failing child or >= 2 threads); distinct by JSON encoding".into();
     ctx.assumptions.push("interleavings are perturbed (pool size x delay script), not enumerated: rayon's scheduler is not under the harness's control".into());
     let n = ctx.tier.pick(12_000u32, 400_000);
     let saved = ctx.threads;
